@@ -31,7 +31,14 @@ def k2_lost_wakeup(line, issue):
     return "the run had read should_notify before the tick re-armed it" in issue and "tick:2:" in line
 
 
+def k4_prefix_not_monotone_matrix(line, issue):
+    """C04: on the matrix path the prefix bonus enters the first row only and the recurrence's consecutive-bonus
+    heuristic may then prefer another alignment: the score can drop by 1 or rise by 9"""
+    return "prefix preference changes the score" in issue and "on the matrix path" in issue
+
+
 PREDICATES = {
+    "prefer_prefix_not_monotone_on_matrix_path": k4_prefix_not_monotone_matrix,
     "lost_wakeup_flag_read_before_rearm": k2_lost_wakeup,
     "ascii_hay_unicode_ascii_needle": k1_ascii_hay_unicode_ascii_needle,
     "score_exceeds_u16": k3_score_exceeds_u16,
